@@ -64,6 +64,9 @@ PROPERTY_INVARIANTS = {
                          "statement log",
     "ObsAckedPresent": "a record whose insert call had returned is missing after the reopen",
     "ObsNoPartial": "a row read back is not byte-identical to an inserted record (or is duplicated / misplaced)",
+    "AckedUnchanged": "the stored row of a record whose insert call had returned was overwritten with other bytes",
+    "ObsUnchanged": "a row read back does not have the bytes the statement log leaves in the database (for an "
+                    "acknowledged record: the bytes it was acknowledged with)",
     "ObsVerifies": "the pseudonym / wallet rebuilt by the real reload path does not verify",
     "TraceAccepted": "the logged statements are not a behaviour of the sqlite layer of CrashDb.tla",
     "RebuiltHasAcked": "the pseudonym rebuilt by the reload lacks a record whose insert call had returned",
@@ -139,10 +142,12 @@ def batch(dbs, items, end):
     return {"op": "batch", "dbs": list(dbs), "items": list(items), "end": end}
 
 
-def imp(name, after=None, auths=()):
+def imp(name, after=None, auths=(), form="hash"):
     """A whole credential (token, metadata, one attestation per listed authority) that was made elsewhere is handed
-    to PseudonymManager.add_credential in one call."""
-    return {"op": "import", "name": name, "after": after, "auths": list(auths)}
+    to PseudonymManager.add_credential in one call.  form: the token is made from a content hash only ("hash"), it
+    carries its content ("full"), or it is the public form of that content-bearing token ("bare": Token.unserialize of
+    its double pointer + signature).  The same name may be imported again, in the same or the other form."""
+    return {"op": "import", "name": name, "after": after, "auths": list(auths), "form": form}
 
 
 SCRIPTED = {
@@ -182,6 +187,21 @@ SCRIPTED = {
     "sequence-2": [cred("q0"), imp("q1", "q0", (0, 1, 2)), batch(("id",), [imp("q2", "q1", (1,))], "ok"),
                    imp("q3", "q0", ()), attest("q3", 2), batch(("id",), [imp("q4", "q3", (0, 2))], "error"),
                    imp("q5", "q2", (1, 0))],
+    # the same record stored again in another FORM (same primary key, other bytes): tokens that carry their content
+    # come back in their public form (a disclosure echo, a peer returning our chain) and the other way round; the
+    # metadata and attestations come along byte-identical; ordinary inserts before, between and after
+    "forms": [imp("f0", None, (0,), "full"), imp("f1", "f0", (), "full"), imp("f0", None, (0,), "bare"),
+              imp("f2", "f1", (1,), "bare"), cred("f3", "f2"), imp("f2", "f1", (1, 2), "full"),
+              imp("f1", "f0", (), "bare"), attest("f3", 0)],
+    "forms-2": [cred("f0"), batch(("id",), [imp("f1", "f0", (0,), "full"), imp("f1", "f0", (0,), "bare")], "ok"),
+                imp("f2", "f1", (), "full"), batch(("id",), [imp("f2", "f1", (), "bare")], "error"),
+                imp("f1", "f0", (0,), "bare"), batch(("id",), [imp("f2", "f1", (2,), "bare")], "ignore"),
+                imp("f3", "f2", (), "bare"), imp("f3", "f2", (), "full"), imp("f3", "f2", (), "bare"), blob(0)],
+    # the database refuses a COMMIT (volume full: transaction rolled back; file locked: transaction kept) in the
+    # middle of a workload of every record kind, whole credentials and a block; the application carries on
+    "faults": [cred("x0"), imp("x1", "x0", (0, 1)), blob(0), cred("x2", "x0"), attest("x2", 2),
+               batch(("id",), [cred("x3", "x1"), attest("x3", 0)], "ok"), blob(1), cred("x4", "x1"),
+               imp("x5", None, (2,), "full")],
 }
 LONG_CHAIN = 150   # stored tokens in one chain, more than any bounded waiting room of the token tree (100)
 
@@ -300,11 +320,11 @@ def run_scenario(base, sc):
         phases = list(sc["phases"]) + [{"items": [], "kill": None, "observer": True}]
         for j, ph in enumerate(phases):
             log = read_log(logp)
-            done = {e["i"] for e in log if e["e"] in ("item_done", "item_skip")}
+            done = {e["i"] for e in log if e["e"] in ("item_done", "item_skip", "item_fail")}
             allowed = range(nitems) if ph["items"] is None else ph["items"]
             todo = [i for i in allowed if i not in done]
             cfg = {"repo": REPO, "dir": workdir, "log": logp, "kill_at": ph["kill"], "kill_rel": ph.get("kill_rel"),
-                   "observe": j > 0,
+                   "observe": j > 0, "fault": ph.get("fault"), "kill_end": ph.get("kill_end"),
                    "todo": todo, "plan": sc["plan"]}
             cfgp = os.path.join(workdir, "cfg%d.json" % j)
             with open(cfgp, "w", encoding="utf-8") as f:
@@ -317,7 +337,8 @@ def run_scenario(base, sc):
             env["PYTHONPYCACHEPREFIX"] = os.path.join(base, "pyc")
             p = subprocess.run([sys.executable, CHILD, cfgp], capture_output=True, text=True, env=env, timeout=300)
             if p.returncode == -9:
-                info["killed"].append(ph["kill"] if ph["kill"] is not None else "item+%s" % ph.get("kill_rel"))
+                info["killed"].append(ph["kill"] if ph["kill"] is not None else "end" if ph.get("kill_end") else
+                                      "item+%s" % ph.get("kill_rel"))
             elif p.returncode == 3:
                 info["open_error"] = True
                 break
@@ -325,6 +346,7 @@ def run_scenario(base, sc):
                 ex = [e for e in read_log(logp) if e["e"] in ("exit", "close_error")]
                 info["points"].append(ex[-1]["points"])
                 info.setdefault("distinct", []).append(ex[-1].get("distinct"))
+                info.setdefault("commits", []).append(ex[-1].get("commits", 0))
                 if ph["kill"] is not None:
                     info["beyond_end"] = True   # the process finished before reaching crash point k
             else:
@@ -339,6 +361,19 @@ def run_scenario(base, sc):
 # raw log -> trace over the alphabet of CrashDbTrace.tla
 # ---------------------------------------------------------------------------------------------------
 _RE_INSERT = re.compile(r"^INSERT(?:\s+OR\s+\w+)?\s+INTO\s+(\w+)", re.I)
+_RE_CONFLICT = re.compile(r"^INSERT\s+OR\s+(\w+)\s", re.I)
+
+
+def conflict_mode(stmt):
+    """What sqlite does with the INSERT when a row with the primary key is stored already: 'ignore' / 'replace' /
+    'plain' (the statement raises); None: a clause the sqlite layer of the specification has no semantics for."""
+    u = " ".join(stmt.upper().split())
+    if " ON CONFLICT" in u:
+        return None
+    m = _RE_CONFLICT.match(u)
+    if not m:
+        return "plain"
+    return {"IGNORE": "ignore", "REPLACE": "replace", "ABORT": "plain", "FAIL": "plain", "ROLLBACK": None}.get(m.group(1))
 
 
 def classify(stmt):
@@ -415,9 +450,9 @@ def build_trace(log, sc, legacy_row):
         d = digest(values)
         if d not in recs[r - 1]["digs"]:
             recs[r - 1]["digs"].append(d)
-        return r
+        return r, recs[r - 1]["digs"].index(d) + 1     # the record and which of its forms (byte strings) this is
     if legacy_row is not None:
-        legacy.append(record("att", legacy_row, None))
+        legacy.append(record("att", legacy_row, None)[0])
 
     alive = False
     call = None      # current Database.execute/executescript/commit call: {"bind", "table", "emitted": [event idx]}
@@ -435,10 +470,10 @@ def build_trace(log, sc, legacy_row):
             item = items[e["i"]]
             for j in e.get("p", ()):
                 item = item["items"][j]
-        elif k in ("item_done", "item_skip", "item_abort"):
+        elif k in ("item_done", "item_skip", "item_abort", "item_fail"):
             item = None
         elif k == "call":
-            call = {"bind": e.get("bind"), "emitted": []}
+            call = {"bind": e.get("bind"), "sql": e.get("sql"), "emitted": []}
         elif k == "ret":
             call = None
             if e.get("fn") == "commit" and e.get("done") is False:
@@ -448,9 +483,20 @@ def build_trace(log, sc, legacy_row):
         elif k == "leave":
             events.append({"a": "Leave", "d": e["db"], "how": e["how"]})
         elif k == "raise":
-            if call and call["emitted"]:
+            if call and call["emitted"] and not call.get("failed"):
+                gone = events[call["emitted"][-1]]
+                if gone["a"] == "Exec" and ins is not None and gone["r"] in ins["recs"]:
+                    ins["recs"].remove(gone["r"])
                 del events[call["emitted"][-1]]   # the statement that raised took no effect
             call = None
+        elif k == "sqlfail":
+            # sqlite failed a COMMIT (seen at the connection, whatever the code does with the exception): the
+            # statement took no effect, the open transaction was kept or rolled back
+            if e.get("ran") and call and call["emitted"] and events[call["emitted"][-1]]["a"] == "Commit":
+                del events[call["emitted"].pop()]
+            events.append({"a": "Fail", "d": e["db"], "rb": bool(e["rb"])})
+            if call is not None:
+                call["failed"] = True
         elif k == "ins_call":
             events.append({"a": "Call", "r": 0})
             ins = {"call_ev": len(events) - 1, "recs": []}
@@ -459,7 +505,8 @@ def build_trace(log, sc, legacy_row):
                 events.append({"a": "Return", "r": r})
             ins = None
         elif k == "ins_raise":
-            events[ins["call_ev"]]["r"] = 0    # the call stored nothing
+            if not ins["recs"]:
+                events[ins["call_ev"]]["r"] = 0    # the call stored nothing
             ins = None
         elif k == "sql":
             name = classify(e["s"])
@@ -474,17 +521,21 @@ def build_trace(log, sc, legacy_row):
                     values = call["bind"]
                     if len(values) <= max(TABLES[table][2]):
                         raise LookupError("INSERT into %s with %d values" % (table, len(values)))
-                    r = record(table, values, parent_of(table, item))
+                    mode = conflict_mode(call.get("sql") or e["s"])
+                    if mode is None:
+                        raise LookupError("INSERT with a conflict clause outside the alphabet")
+                    r, v = record(table, values, parent_of(table, item))
                 except LookupError as err:
                     ev = {"a": "Unknown", "d": e["db"], "what": "%s: %s" % (err, e["s"][:80])}
                 else:
                     if table in ("tokens", "metadata"):
                         name2rec[(item["name"], "token" if table == "tokens" else "metadata")] = r
-                    ev = {"a": "Exec", "d": TABLES[table][1], "r": r}
+                    ev = {"a": "Exec", "d": TABLES[table][1], "r": r, "v": v, "mode": mode}
                     if ins is not None:
                         ins["recs"].append(r)
                         if events[ins["call_ev"]]["r"] == 0:
                             events[ins["call_ev"]]["r"] = r
+                            events[ins["call_ev"]]["v"] = v
             elif name == "UNKNOWN":
                 ev = {"a": "Unknown", "d": e["db"], "what": "statement outside the alphabet: " + e["s"][:80]}
             else:
@@ -665,15 +716,21 @@ SPEC_CONTROLS = (("spec with the pinned version read (missing row raises; schema
                  ("spec whose __enter__ starts the count of deferred commits afresh inside a block violates "
                   "AckedDurable", "CrashDb_enter_reset.cfg", "AckedDurable"),
                  ("spec that writes the records of a credential in any order violates PseudonymVerifies",
-                  "CrashDb_child_first.cfg", "PseudonymVerifies"))
+                  "CrashDb_child_first.cfg", "PseudonymVerifies"),
+                 ("spec whose insert of a token overwrites the stored row (INSERT OR REPLACE) violates AckedUnchanged "
+                  "when the token comes in again in another form", "CrashDb_replace.cfg", "AckedUnchanged"),
+                 ("spec whose commit() swallows the error of a COMMIT that sqlite failed violates AckedDurable",
+                  "CrashDb_swallow.cfg", "AckedDurable"))
 
 
 def start_model_check(tlcpool, tier):
     """TLC on the specification itself runs in the background while the child processes are enumerated."""
-    cfgs = [("mc", "CrashDb_mc.cfg"), ("legacy", "CrashDb_legacy.cfg"), ("batch", "CrashDb_batch.cfg")] \
+    cfgs = [("mc", "CrashDb_mc.cfg"), ("legacy", "CrashDb_legacy.cfg"), ("batch", "CrashDb_batch.cfg"),
+            ("faults+forms", "CrashDb_faults.cfg")] \
         if tier == "quick" else \
            [("mc4", "CrashDb_mc4.cfg"), ("legacy4", "CrashDb_legacy4.cfg"), ("mc-3crashes", "CrashDb_mc_r4.cfg"),
-            ("batch", "CrashDb_batch4.cfg")]
+            ("batch", "CrashDb_batch4.cfg"), ("faults+forms", "CrashDb_faults.cfg"),
+            ("faults+forms3", "CrashDb_faults3.cfg")]
     jobs = [(tag, cfg, None, tlcpool.submit(run_tlc, "CrashDb.tla", cfg, timeout=3000)) for tag, cfg in cfgs]
     jobs += [(name, cfg, inv, tlcpool.submit(run_tlc, "CrashDb.tla", cfg, coverage=False, workers=4))
              for name, cfg, inv in SPEC_CONTROLS]
@@ -693,7 +750,7 @@ def finish_model_check(ctx, jobs):
         for a, (_d, t) in r.coverage.items():
             union[a] = union.get(a, 0) + t
     never = sorted(a for a, n in union.items() if n == 0 and a.startswith("P"))
-    if never or len([a for a in union if a.startswith("P")]) < 21:
+    if never or len([a for a in union if a.startswith("P")]) < 23:
         raise MachineryError("CrashDb: vacuous model checking, actions never taken: %s (seen %d)" % (never, len(union)))
 
 
@@ -741,6 +798,33 @@ def enumerate_single(pool, base, sc_base, from_item=False, distinct=False, sampl
                 s["phases"][-1]["kill"], n))
         traces.append(build_trace(lg, s, lrow))
     return traces, len(ks), n
+
+
+def enumerate_faults(pool, base, sc_base, both=True, seed=0):
+    """Run the workload once to completion, then once per COMMIT j the process asks of sqlite from its first item on:
+    that COMMIT is refused - the way sqlite refuses it on a full volume (transaction rolled back) and the way it does
+    on a locked file (transaction kept) - the application carries on with the rest of the workload, the process is
+    SIGKILLed when the workload is through (or, every third run, closes its databases) and a fresh process reopens
+    the files.  both=False: one of the two ways per COMMIT (alternating, the seed decides which starts)."""
+    plain = {"items": None, "kill": None}
+    log, legacy_row, info = run_scenario(base, dict(sc_base, phases=sc_base["prefix"] + [plain]))
+    full = build_trace(log, dict(sc_base, phases=sc_base["prefix"] + [plain]), legacy_row)
+    if info["open_error"] or len(info.get("commits", ())) <= len(sc_base["prefix"]):
+        return [full], 0, 0
+    n = info["commits"][len(sc_base["prefix"])]
+    scs = []
+    for j in range(1, n + 1):
+        for rb in ((True, False) if both else ((j + seed) % 2 == 0,)):
+            ph = {"items": None, "kill": None, "fault": {"at": j, "n": 2 if j % 5 == 0 else 1, "rb": rb},
+                  "kill_end": (j + rb) % 3 != 0}
+            scs.append(dict(sc_base, phases=sc_base["prefix"] + [ph]))
+    traces = [full]
+    for sc, (lg, lrow, _inf) in pool.map(lambda x: (x, run_scenario(base, x)), scs):
+        t = build_trace(lg, sc, lrow)
+        if not any(e["a"] == "Fail" for e in t["events"]):
+            raise MachineryError("C19: the fault %s of workload %s was not injected" % (sc["phases"][-1], sc["name"]))
+        traces.append(t)
+    return traces, len(scs), n
 
 
 def corrupt(traces, how):
@@ -793,6 +877,26 @@ def corrupt(traces, how):
                 if e["a"] == "Return":
                     return [dict(t, events=evs[:i + 1] + [{"a": "Unknown", "d": "id", "what": "DROP TABLE Tokens"}]
                                  + evs[i + 1:])]
+        elif how == "swallowed-commit-failure":
+            # sqlite fails the COMMIT of an insert and the insert call is claimed to have returned all the same
+            for i, e in enumerate(evs):
+                if e["a"] == "Fail" and i >= 1 and evs[i - 1]["a"] == "Exec" and evs[i - 1]["d"] == e["d"]:
+                    return [dict(t, events=evs[:i + 1] + [{"a": "Return", "r": evs[i - 1]["r"]}] + evs[i + 1:])]
+        elif how == "failed-commit-took-effect":
+            # the COMMIT that sqlite failed is claimed to have made its transaction durable: what the fresh process
+            # read back (the observation is left as recorded) no longer matches
+            for i, e in enumerate(evs):
+                if e["a"] == "Fail" and e["rb"] and i >= 1 and evs[i - 1]["a"] == "Exec" and obs:
+                    return [dict(t, events=evs[:i] + [{"a": "Commit", "d": e["d"]}] + evs[i + 1:])]
+        elif how == "replace-acked-row":
+            # the INSERT that stores an acknowledged record again in another form overwrites the row
+            acked = set()
+            for i, e in enumerate(evs):
+                if e["a"] == "Return":
+                    acked.add(e["r"])
+                elif e["a"] == "Exec" and e["r"] in acked and e["mode"] == "ignore" and e["v"] > 1 \
+                        and evs[i + 1:i + 2] == [{"a": "Commit", "d": e["d"]}]:
+                    return [dict(t, events=evs[:i] + [dict(e, mode="replace")] + evs[i + 1:])]
         elif how == "child-before-parent":
             # the metadata of a credential is written (and committed) before the token it points to
             for m, rec in enumerate(t["recs"], 1):
@@ -819,6 +923,20 @@ def corrupt(traces, how):
             elif how == "unverifiable" and o["id"]:
                 o["verifies"] = False
                 return [dict(t, events=evs[:i] + [o] + evs[i + 1:])]
+            elif how == "row-other-form":
+                # the fresh process reads an acknowledged row back in the OTHER of the forms that were inserted
+                for x in o["id"]:
+                    digs = t["recs"][x["r"] - 1]["digs"] if x["r"] else []
+                    if len(digs) > 1 and x["r"] in acked:
+                        x["dig"] = [d for d in digs if d != x["dig"]][0]
+                        return [dict(t, events=evs[:i] + [o] + evs[i + 1:])]
+            elif how == "tree-other-form":
+                # ... and so does the pseudonym the reload path rebuilt (the token lost / changed its content)
+                for x in o["tree"]:
+                    digs = t["recs"][x["r"] - 1]["digs"] if x["r"] else []
+                    if len(digs) > 1 and x["r"] in acked:
+                        x["dig"] = [d for d in digs if d != x["dig"]][0]
+                        return [dict(t, events=evs[:i] + [o] + evs[i + 1:])]
             elif how == "tree-hole" and len(o["tree"]) >= 2:
                 # the reload lost a stored token
                 del o["tree"][0]
@@ -840,7 +958,10 @@ TRACE_CONTROLS = (("drop-commit", "AckedDurable"), ("lose-acked-row", "ObsMatche
                   ("tree-hole", "ObsRebuiltMatches"), ("tree-unverified", "ObsRebuiltWhole"),
                   ("credential-lost", "ObsRebuiltMatches"),
                   ("drop-nested-commit", "AckedDurable"), ("child-before-parent", "PseudonymVerifies"),
-                  ("foreign-statement", "TraceAccepted"))
+                  ("foreign-statement", "TraceAccepted"),
+                  ("swallowed-commit-failure", "AckedDurable"), ("failed-commit-took-effect", "ObsMatchesDurable"),
+                  ("replace-acked-row", "AckedUnchanged"), ("row-other-form", "ObsUnchanged"),
+                  ("tree-other-form", "ObsRebuiltWhole"))
 
 
 def trace_controls(good):
@@ -897,7 +1018,7 @@ def run(tier, seed, replay=None):
         clock["t"], clock["cpu"] = now, cpu
 
     base = scratch_dir("c19-")
-    tlcpool = concurrent.futures.ThreadPoolExecutor(max_workers=4)
+    tlcpool = concurrent.futures.ThreadPoolExecutor(max_workers=5)
     try:
         mcjobs = [] if replay else start_model_check(tlcpool, tier)
         with concurrent.futures.ThreadPoolExecutor(max_workers=WORKERS) as pool:
@@ -910,7 +1031,7 @@ def run(tier, seed, replay=None):
                 src = dict(SCRIPTED)
                 src["long-history"] = long_history(LONG_CHAIN)
                 name = rp["scenario"]
-                key = name.replace("legacy:", "").replace("second-run:", "")
+                key = name.replace("legacy:", "").replace("second-run:", "").replace("faults:", "")
                 if key.startswith(("generated-", "genblocks-", "gennest-")):
                     src[key] = generated_items(random.Random(int(key.split("-")[1])), int(key.split("-")[2]),
                                                blocks=not key.startswith("generated-"), nest=key.startswith("gennest-"))
@@ -944,8 +1065,20 @@ def run(tier, seed, replay=None):
                           dict({"from_item": True}, **({"sample": 16, "rng": random.Random(seed + 23)} if quick else {}))),
                          # whole credentials through one add_credential call (token, metadata, attestations)
                          ("sequence", SCRIPTED["sequence"], False, (),
-                          dict({"from_item": True}, **({"sample": 10, "rng": random.Random(seed + 29)} if quick else {})))]
+                          dict({"from_item": True}, **({"sample": 10, "rng": random.Random(seed + 29)} if quick else {}))),
+                         # records that are stored again in another form (same key, other bytes), before and after
+                         # ordinary inserts and restarts
+                         ("forms", SCRIPTED["forms"], False, (),
+                          dict({"from_item": True}, **({"sample": 12, "rng": random.Random(seed + 31)} if quick else {}))),
+                         # sqlite refuses a COMMIT (rolled back / kept) at every COMMIT of the workload, the
+                         # application carries on, then the kill
+                         ("faults", SCRIPTED["faults"], False, (), {"faults": True, "both": not quick, "seed": seed})]
                 if tier == "thorough":
+                    plans.append(("forms-2", SCRIPTED["forms-2"], False, (), {"from_item": True}))
+                    plans.append(("faults:forms-2", SCRIPTED["forms-2"], False, (), {"faults": True}))
+                    plans.append(("faults:nested-2", SCRIPTED["nested-2"], False, (), {"faults": True}))
+                    plans.append(("faults:long-history", long_history(LONG_CHAIN, tail=True), False,
+                                  ({"items": list(range(LONG_CHAIN)), "kill": None},), {"faults": True}))
                     plans.append(("nested-2", SCRIPTED["nested-2"], False, (), {"from_item": True}))
                     plans.append(("sequence-2", SCRIPTED["sequence-2"], False, (), {"from_item": True}))
                     plans.append(("legacy:sequence", SCRIPTED["sequence"], True, (), {"from_item": True}))
@@ -978,6 +1111,9 @@ def run(tier, seed, replay=None):
                     jobs = [(name, legacy,
                              planpool.submit(single_run, base, scenario(name, items, legacy, prefix), opts["phase"])
                              if "phase" in opts else
+                             planpool.submit(enumerate_faults, pool, base, scenario(name, items, legacy, prefix),
+                                             **{k: v for k, v in opts.items() if k != "faults"})
+                             if "faults" in opts else
                              planpool.submit(enumerate_single, pool, base, scenario(name, items, legacy, prefix), **opts))
                             for name, items, legacy, prefix, opts in plans]
 
@@ -999,7 +1135,7 @@ def run(tier, seed, replay=None):
                     for name, legacy, job in jobs:
                         traces, n, _all = job.result()
                         npoints[name] = n
-                        batches.setdefault("legacy" if legacy else "long" if name == "long-history" else "fresh",
+                        batches.setdefault("legacy" if legacy else "long" if name.endswith("long-history") else "fresh",
                                            []).extend(traces)
                     doubles = doubles_job.result()
                 if doubles:
